@@ -29,7 +29,7 @@ type Interp struct {
 	offVar   types.Object
 	handler  types.Type // oj.TokenHandler interface, if any
 	// candidates for what lies below a popped stack top (supplied by the product)
-	below    func(field string) []absStack
+	below func(field string) []absStack
 	// precisePrev: frames remember what they were pushed over (superset comparison of the SEN parser)
 	precisePrev bool
 	prevDepth   int // how many covered frames a frame remembers (default 1)
@@ -37,25 +37,25 @@ type Interp struct {
 	buildKinds bool
 	// selfEvents: build-stack operations and hand-offs (stores, callback calls, channel sends of a
 	// build-stack element) are recorded as events (chunk-independence comparison of a machine with itself)
-	selfEvents bool
-	recvName   string // name of the receiver variable in the dispatch function
-	nilTested  map[string]bool // untracked nilable receiver fields nil-tested by the dispatch function or what it calls
-	trackReads bool // record reads-before-write of tracked fields (liveness sampling)
-	noScratch  bool // scratch-buffer typestate is not followed (decided by the exploration of the machine alone)
-	undecided []string
-	maxDepth int
-	hook     *workCollector
-	dispatchSw *ast.SwitchStmt
-	appendHook func(st *State, call *ast.CallExpr, args []Val)
-	scratch  map[string]bool // []byte receiver fields used as truncate-then-append scratch buffers
-	constCache map[ast.Expr]Val
-	tableID  map[string]int
-	cls      *byteClasses
+	selfEvents  bool
+	recvName    string          // name of the receiver variable in the dispatch function
+	nilTested   map[string]bool // untracked nilable receiver fields nil-tested by the dispatch function or what it calls
+	trackReads  bool            // record reads-before-write of tracked fields (liveness sampling)
+	noScratch   bool            // scratch-buffer typestate is not followed (decided by the exploration of the machine alone)
+	undecided   []string
+	maxDepth    int
+	hook        *workCollector
+	dispatchSw  *ast.SwitchStmt
+	appendHook  func(st *State, call *ast.CallExpr, args []Val)
+	scratch     map[string]bool // []byte receiver fields used as truncate-then-append scratch buffers
+	constCache  map[ast.Expr]Val
+	tableID     map[string]int
+	cls         *byteClasses
 	nonNilCache map[*types.Func]bool
-	popEmpty []string
-	methods  map[*types.Func]*ast.FuncDecl
-	recvOf   map[*ast.FuncDecl]types.Object
-	steps    int
+	popEmpty    []string
+	methods     map[*types.Func]*ast.FuncDecl
+	recvOf      map[*ast.FuncDecl]types.Object
+	steps       int
 }
 
 type ctl int
